@@ -33,7 +33,7 @@ def main():
         for c in checks:
             p = subprocess.run(['./check', c, '--tier', tier], env=env, cwd=os.path.dirname(os.path.dirname(os.path.abspath(__file__))),
                                stdout=subprocess.PIPE, stderr=subprocess.STDOUT, text=True)
-            lines = [l for l in p.stdout.splitlines() if l.startswith(('VIOLATION', 'INCONCLUSIVE', 'HELD', 'KNOWN', '  new violation'))]
+            lines = [l for l in p.stdout.splitlines() if l.startswith(('VIOLATION', 'INCONCLUSIVE', 'HELD', '  new violation'))]
             print('%s exit=%d' % (c, p.returncode)); print('\n'.join(lines[:12]))
             rc = max(rc, p.returncode)
         return rc
